@@ -5,6 +5,7 @@ functions of src/function.rs, `Scope` lookups (src/scope.rs).
 Child processes (backticks, `shell()`) and every function outside the concrete set are parameters.
 -/
 import Just.Model.Expr
+import Just.Model.Path
 namespace Just.Eval
 open Just
 
@@ -131,6 +132,23 @@ def pureFn (ctx : Ctx) (fn : String) (args : List String) : Option (Except Strin
       | some v => .ok v
       | none => .error ("environment variable `" ++ k ++ "` not present"))
   | "env_var_or_default", [k, d] => some (.ok ((ctx.envVar k).getD d))
+  | "clean", [p] => some (.ok (String.ofList (Path.cleanFn p.toList)))
+  | "file_name", [p] => some (match Path.fileName p.toList with
+      | some f => .ok (String.ofList f)
+      | none => .error ("Could not extract file name from `" ++ p ++ "`"))
+  | "file_stem", [p] => some (match Path.fileStem p.toList with
+      | some f => .ok (String.ofList f)
+      | none => .error ("Could not extract file stem from `" ++ p ++ "`"))
+  | "extension", [p] => some (match Path.extensionOf p.toList with
+      | some f => .ok (String.ofList f)
+      | none => .error ("Could not extract extension from `" ++ p ++ "`"))
+  | "parent_directory", [p] => some (match Path.parentStr p.toList with
+      | some f => .ok (String.ofList f)
+      | none => .error ("Could not extract parent directory from `" ++ p ++ "`"))
+  | "without_extension", [p] => some (match Path.withoutExtension p.toList with
+      | some f => .ok (String.ofList f)
+      | none => .error ("Could not extract parent or file stem from `" ++ p ++ "`"))
+  | "join", base :: w :: rest => some (.ok (String.ofList (Path.joinPaths base.toList ((w :: rest).map String.toList))))
   | "error", [m] => some (.error m)
   | "is_dependency", [] => some (.ok (if ctx.isDependency then "true" else "false"))
   | _, _ => none
